@@ -292,7 +292,7 @@ Theorem parent_child_inverse t : validate t = true -> wf t ->
 Proof.
   intros V W. split; [|split].
   - intros k p c Hk. split; [apply children_parent_of; assumption|].
-    intros H. apply (parent_of_children t V k p c W H).
+    intros H. apply (parent_of_children t k p c W H).
   - intros k c Hk Hc. destruct (node_has_parent t V k c Hk Hc) as (p & E & Hp & _). exists p. tauto.
   - intros li x Hli Hx. split; [apply ancestors_path; assumption|]. split; [intros l; apply path_unique; assumption|].
     split; [apply ancestors_levels; assumption | apply ancestors_chk_ok; assumption].
